@@ -8,6 +8,7 @@
 
 pub mod src;
 pub mod ranger_l;
+pub mod crypto;
 
 /// re-export for the native witness programs (iroh-blobs is not a dependency of /verif/replay)
 pub use iroh_blobs::Hash;
